@@ -644,7 +644,7 @@ func runOne(ctx context.Context, sp solverSpec, file string, timeoutS int) Solve
 
 // Solve races the portfolio; the first definitive (sat/unsat) answer wins. With
 // all=true every solver is run to completion and the per-solver answers are kept.
-func Solve(query string, dir string, name string, timeoutS int, all bool) SolverResult {
+func Solve(query string, dir string, name string, timeoutS int, all bool, retry bool) SolverResult {
 	if !all {
 		// fast path: one solver with a short budget; anything but unsat goes to the full race
 		r := solveWith(solverSpecs[:1], query, dir, name, 2, false, false)
@@ -659,7 +659,7 @@ func Solve(query string, dir string, name string, timeoutS int, all bool) Solver
 			timedOut = true
 		}
 	}
-	if timedOut && (r.Status == "timeout" || r.Status == "unknown") && !all {
+	if retry && timedOut && (r.Status == "timeout" || r.Status == "unknown") && !all {
 		// every solver ran out of time: on a loaded machine that says little, so the
 		// race is repeated once with three times the budget before the obligation
 		// is reported as not discharged
